@@ -7,7 +7,7 @@ import HL.Spec.BalanceSpec
 
   Written from the EBNF of HL/Spec/GCore.lean alone: positional value of the digit strings, a
   sign; no decimals, no lexer, no parser, no `GCore.expected` (`txRanges` restates where the
-  printer puts each transaction; `Props/C02Pipeline.txRanges_expected` ties it to the tree).
+  printer puts each transaction; `Lemmas/GCoreValue.txRanges_expected` ties it to the tree).
 
   ```
   amount ::= [ '-' ] digits [ '.' digits ] [ ' ' commodity ]
